@@ -320,6 +320,11 @@ func (u *upstream) updateClients(clients map[string]*client) {
 
 func (u *upstream) handleRedirection(req *simpleRequest, resp *RespValue) {
 	err := strings.Split(string(resp.Text), " ")
+	if len(err) < 3 {
+		// malformed redirection, hand the error to the client as is.
+		req.SetResponse(resp)
+		return
+	}
 	hostAddr := err[2]
 	switch strings.ToLower(err[0]) {
 	case MOVED:
